@@ -11,6 +11,9 @@ package patch
 // panic_frame(): what an apply that panics while relocating the prologue may leave behind - only the entry windows of
 // targets that were patched before (the previous patch of the same target is removed first) may differ
 //@ pure func panic_frame() bool = forall a uintptr :: textmem[a] == old(textmem[a]) || exists k uintptr :: was_patched(k) && k <= a && a < k + 13
+// is_target_of(a, v): a is the code address goom patches for the function value v (its entry, or for a generic
+// instantiation wrapper the function behind it)
+//@ pure func is_target_of(a uintptr, v reflect.Value) bool = a == rv_pointer(v) || a == bytecode.inner_func(rv_pointer(v))
 //@ pure func locked() bool = mutex_held[addr(patchesLock)]
 //@ pure func addr13_ok(a uintptr) bool = a < 0x7fffffff00000000
 
@@ -58,7 +61,7 @@ package patch
 //@ func (g *Guard) Unpatch
 //@   props C02 C11 C14
 //@   requires wf: g != nil && g.applied ==> guard_wf(g)
-//@   requires lock_held: locked()
+//@   requires lock_held: g != nil && g.applied ==> locked()
 //@   assigns textmem[g.origin : g.origin + 13], perm, rw_wheld[addr(memory.memoryAccessLock)]
 //@   ensures restored: g != nil && g.applied ==> window_is(g.origin, g.originBytes)
 //@   ensures untouched_if_not_applied: g == nil || !g.applied ==> text_unchanged()
@@ -222,8 +225,11 @@ package patch
 //@ pure func entry_frame(origin uintptr, tramp uintptr) bool = forall a uintptr :: textmem[a] == old(textmem[a]) || (origin <= a && a < origin + 13)
 //@   | || (tramp > 0 && tramp <= a && a < tramp + uintptr(bytecode.func_extent(tramp)))
 
+//@ pure func generics_name(name string) bool = str_contains(name, "[...]")
 //@ func IsGenericsFunc
+//@   props C01 C12
 //@   pure
+//@   ensures names_it: result == generics_name(name)
 
 //@ func (p *patch) unsafePatchPtr
 //@   props C02 C01 C11 C13 C14
@@ -260,6 +266,7 @@ package patch
 //@   ensures other_guards_kept: forall q *patch :: q.guard == old(q.guard) || (was_patched(p.originPtr) && q == old_entry(p.originPtr))
 //@   ensures table_kept: table_inv()
 //@   ensures rejects_non_func: rv_kind(p.originValue) != reflect.Func || rv_kind(p.replacementValue) != reflect.Func ==> result != nil && text_unchanged()
+//@   ensures targets_the_function: result == nil ==> is_target_of(p.originPtr, p.originValue)
 //@   ensures registered_gc_anchor: result == nil ==> has(patches, p.originPtr) && patches[p.originPtr] == p && p.replacementValue == old(p.replacementValue)
 //@   ensures complete: result == nil ==> patch_complete(p) && addr13_ok(p.originPtr)
 //@   ensures captured: result == nil ==> window_is(p.originPtr, p.originBytes)
@@ -284,6 +291,7 @@ package patch
 //@   ensures other_guards_kept: forall q *patch :: q.guard == old(q.guard) || (was_patched(p.originPtr) && q == old_entry(p.originPtr))
 //@   ensures table_kept: table_inv()
 //@   ensures signature_checked: result == nil ==> sig_compatible(rv_type(p.originValue), rv_type(p.replacementValue))
+//@   ensures targets_the_function: result == nil ==> is_target_of(p.originPtr, p.originValue)
 //@   ensures registered_gc_anchor: result == nil ==> has(patches, p.originPtr) && patches[p.originPtr] == p && p.replacementValue == old(p.replacementValue)
 //@   ensures complete: result == nil ==> patch_complete(p) && addr13_ok(p.originPtr)
 //@   ensures captured: result == nil ==> window_is(p.originPtr, p.originBytes)
@@ -309,6 +317,7 @@ package patch
 //@   ensures other_guards_kept: forall q *patch :: q.guard == old(q.guard) || (was_patched(p.originPtr) && q == old_entry(p.originPtr))
 //@   ensures table_kept: table_inv()
 //@   ensures values: p.originValue == value_of(p.origin) && p.replacementValue == value_of(p.replacement)
+//@   ensures targets_the_function: result == nil ==> is_target_of(p.originPtr, value_of(p.origin))
 //@   ensures registered_gc_anchor: result == nil ==> has(patches, p.originPtr) && patches[p.originPtr] == p
 //@   ensures complete: result == nil ==> patch_complete(p) && addr13_ok(p.originPtr)
 //@   ensures captured: result == nil ==> window_is(p.originPtr, p.originBytes)
@@ -331,6 +340,7 @@ package patch
 //@   ensures table_kept: table_inv()
 //@   ensures error_no_guard: result1 != nil ==> result0 == nil
 //@   ensures guard_ready: result1 == nil ==> result0 != nil && guard_wf(result0) && !result0.applied && has(patches, result0.origin) && patches[result0.origin].guard == result0
+//@   ensures targets_the_function: result1 == nil ==> is_target_of(result0.origin, value_of(origin))
 //@   ensures jump_through_replacement_funcvalue: result1 == nil ==> x86_is_movabs_rdx_jmp(result0.jumpBytes, 1) && x86_movabs_rdx_imm(result0.jumpBytes, 1) == bytecode.funcvalue_word(value_of(replacement))
 //@   ensures gc_anchor: result1 == nil ==> patches[result0.origin].replacementValue == value_of(replacement)
 //@   ensures captured_text: result1 == nil ==> window_is(result0.origin, result0.originBytes)
